@@ -510,7 +510,7 @@ Definition stored (s : mstate) (c : Z) (h : hdr) (lg dm : Z) : mstate :=
   setm c (fun m => mm_flags m (lg =? 1) (dm =? 1)) (setm c (fun m => mm_modid m (h_src_mod h)) s).
 Definition connected_state (s1 : mstate) (c : Z) : mstate :=
   let s2 := setm c mm_connected s1 in
-  if m_logger (find_mod c (mods s2)) then with_loggers s2 (zinsert c (loggers s2)) else s2.
+  if m_logger (find_mod c (mods s2)) && m_reg (find_mod c (mods s2)) then with_loggers s2 (zinsert c (loggers s2)) else s2.
 
 Lemma connect_scan_free cfg FUEL c me : 10 < loglevel cfg -> forall others s,
   forallb (no_conflict c me) others = true -> connect_scan cfg FUEL c me others s = Ok false s.
@@ -539,7 +539,7 @@ Proof.
   assert (Hid' : negb (m_mod_id (find_mod c (mods s1)) =? 0) = true) by lia. rewrite Hid', Hbad.
   unfold bind at 1. rewrite (connect_scan_free cfg FUEL c _ Hlog _ s1 Hfree).
   unfold finish_conn, connected_state, setm, bind, set_mod, modify, get, ret.
-  destruct (m_logger _); reflexivity.
+  destruct (m_logger _ && m_reg _); reflexivity.
 Qed.
 
 Definition ci_hdr : hdr := mgr_hdr MT_CLIENT_INFO SZ_CLIENT_INFO 0.
@@ -562,7 +562,7 @@ Proof.
   { unfold s2, s1, stored. rewrite !(setm_field m_closed); auto; intro; reflexivity. }
   assert (Hr : m_reg (find_mod x (mods s2)) = m_reg (find_mod x (mods s))).
   { unfold s2, s1, stored. rewrite !(setm_field m_reg); auto; intro; reflexivity. }
-  destruct (m_logger (find_mod c (mods s2))); cbn [mods faults wl subs loggers with_loggers]; repeat split; auto.
+  destruct (m_logger (find_mod c (mods s2)) && m_reg (find_mod c (mods s2))); cbn [mods faults wl subs loggers with_loggers]; repeat split; auto.
 Qed.
 
 Theorem connect_acked_exact cfg (k : nat) c h lg dm s :
@@ -612,7 +612,7 @@ Proof.
     unfold send_mgr, send_mgr_with. change (mgr_hdr MT_CLIENT_INFO SZ_CLIENT_INFO 0) with ci_hdr.
     change (fwd cfg (Datatypes.S k)) with (forward cfg (Datatypes.S k)). rewrite Efw.
     apply mlog_off. exact Hoff20.
-  - rewrite Ho3. assert (Eo2 : out s2 = out s) by (unfold s2, connected_state; cbv zeta; destruct (m_logger _); reflexivity).
+  - rewrite Ho3. assert (Eo2 : out s2 = out s) by (unfold s2, connected_state; cbv zeta; destruct (m_logger _ && m_reg _); reflexivity).
     rewrite Eo2. reflexivity.
   - rewrite Ho'. change (h_type ci_hdr) with MT_CLIENT_INFO. rewrite Esn3, Epl. reflexivity.
   - intros d f. unfold eligible. rewrite (K5 _ m_mod_id), (K5 _ m_logger); auto.
@@ -622,7 +622,7 @@ Proof.
       assert (Hcc : m_conn (find_mod c (mods s1)) = c).
       { apply find_mod_conn_of_open. unfold s1, stored. rewrite !(setm_field m_closed); auto; intro; reflexivity. }
       rewrite Hcc, Z.eqb_refl. reflexivity. }
-    destruct (m_logger _); exact E.
+    destruct (m_logger _ && m_reg _); exact E.
 Qed.
 
 (* ---------- at every reachable state ---------- *)
